@@ -17,3 +17,4 @@ def check(ctx, prog):
     branching.check_choice_points(ctx, prog)  # scope: cp_init only (what a restart re-establishes)
     optimize.rule_optional_result(ctx, prog)
     process.rule_liveness(ctx, prog)  # scope: the distributed optimisation does not join a worker that may still be writing
+    model.rule_problem_readonly(ctx, prog)  # an optimisation leaves the model as it found it
